@@ -111,6 +111,9 @@ m("c18-region-cache-write", "header.go", "\tif h.OldMakerCode == 0x33 {\n\t\th.v
 m("c18-last-mapped-global", "mapping/util/mapping.go", "func BankToLinear(addr uint32) uint32 {\n\tbank := addr >> 16", "var LastBank uint32\n\nfunc BankToLinear(addr uint32) uint32 {\n\tbank := addr >> 16\n\tLastBank = bank", ["C18"])
 m("c18-alwayserror-counts", "rom.go", "func (alwaysError) Read(p []byte) (int, error) {\n\treturn 0, io.ErrUnexpectedEOF", "var alwaysErrorCalls int\n\nfunc (alwaysError) Read(p []byte) (int, error) {\n\talwaysErrorCalls++\n\treturn 0, io.ErrUnexpectedEOF", ["C18"])
 
+m("c01-inc16-wrap-z", "emulator/cpualt/cpu.go", "\t\t\tvalue := cpu.cmdRead16() + 1\n\t\t\tcpu.cmdWrite16(value)\n\t\t\tcpu.setZN16(value)", "\t\t\tvalue := cpu.cmdRead16() + 1\n\t\t\tcpu.cmdWrite16(value)\n\t\t\tcpu.setZN16(value)\n\t\t\tif value == 0 {\n\t\t\t\tcpu.Z = 0\n\t\t\t}", ["C01", "C02"])
+m("c01-cpx16-equal-carry", "emulator/cpu65c816/cpu.go", "func (cpu *CPU) compare16(a, b uint16) {\n\tcpu.setZN16(a - b)\n\tif a >= b {", "func (cpu *CPU) compare16(a, b uint16) {\n\tcpu.setZN16(a - b)\n\tif a > b || (a == b && a != 0x8000) {", ["C01"])
+
 def sh(cmd, **kw):
     return subprocess.run(cmd, shell=True, text=True, capture_output=True, **kw)
 
